@@ -24,6 +24,13 @@ int_t await(volatile int_t *status)
 
     /* randnum = ( random() & 0xff ); */
     randnum = 0;
+#ifdef XIAOYELI_SUPERLU_MT_VERIF
+    /* verification hook: the harness runs the owner of the awaited column here */
+    {
+	extern void slu_mt_verif_await(volatile int_t *);
+	slu_mt_verif_await(status);
+    }
+#endif
     while ( *status ) ;
 #if 0
     {
